@@ -34,16 +34,27 @@ import (
 // change anything: the oracles are evaluated after all registrations and are
 // the same with and without them (a library that memoizes what it computed
 // from the migration table has to keep the memo consistent).
+//
+// NoDec: the process knows its version of the lineage and declares the
+// migrations, but registers no decoder (and no encoder) for the lineage's
+// types: what it receives stays opaque (opaqueLeaf / opaqueWrapper), while
+// the errors it builds locally have its own Go types. Such a process is an
+// intermediary or a receiver, never a sender.
 type Proc struct {
 	Ver    string `json:"ver"`
 	Order  []int  `json:"order,omitempty"`
 	Direct bool   `json:"direct,omitempty"`
 	Obs    []int  `json:"obs,omitempty"`
+	NoDec  bool   `json:"nodec,omitempty"`
 }
 
 const unknowing = "unknowing"
 
 func (p Proc) knows() bool { return p.Ver != unknowing }
+
+// decodes tells whether the process decodes the lineage's types to Go types
+// of its own (else they stay opaque).
+func (p Proc) decodes() bool { return p.knows() && !p.NoDec }
 
 // n is the length of the rename chain this process declares.
 func (p Proc) n() int {
@@ -86,6 +97,10 @@ func (p Proc) cur(l *lineage) *version {
 
 // fits tells whether the process exists for the lineage.
 func (p Proc) fits(l *lineage) bool {
+	if p.NoDec && l.protoNative {
+		// the proto-native leaf never has a decoder
+		return false
+	}
 	if p.Ver == "Alt" {
 		return l.alt != nil
 	}
@@ -102,6 +117,9 @@ func (p Proc) String() string {
 	if len(p.Obs) > 0 {
 		s += "[observes before step " + orderString(p.Obs) + "]"
 	}
+	if p.NoDec {
+		s += "{no decoders}"
+	}
 	return s
 }
 
@@ -116,8 +134,16 @@ func orderString(o []int) string {
 // key is the part of a violation key that identifies the registration
 // configuration at fault: chain length and registration order only. In a
 // "chronological" order the renames are declared oldest first (A->B before
-// B->C); "newest-first" is the exact reverse.
+// B->C); "newest-first" is the exact reverse. "|no-decoder" is appended for a
+// process that registers no decoder for the lineage.
 func (p Proc) key() string {
+	if p.NoDec {
+		return p.baseKey() + "|no-decoder"
+	}
+	return p.baseKey()
+}
+
+func (p Proc) baseKey() string {
 	switch {
 	case p.Ver == unknowing:
 		return "n=-|order=unknowing"
@@ -155,6 +181,9 @@ func (p Proc) valid() bool {
 		if o < 0 || o >= p.points() || (i > 0 && o <= p.Obs[i-1]) {
 			return false
 		}
+	}
+	if p.NoDec && !p.knows() {
+		return false
 	}
 	switch p.Ver {
 	case "V0", "Alt", unknowing:
@@ -319,17 +348,25 @@ func observe(vs []*version) {
 // an errorspb.StringsPayload, and the custom decoder rebuilds the Go type
 // from the payload only; it fails (-> opaque error) when the payload is
 // missing or is not the one of its role.
+// A type of the marker lineage also puts its marker in the payload.
 func payloadFor(role string, err error) proto.Message {
 	m, c := err.(fielder).fields()
-	return &errorspb.StringsPayload{Details: []string{role, m, c}}
+	d := []string{role, m, c}
+	if k, ok := err.(errbase.TypeKeyMarker); ok {
+		d = append(d, k.ErrorKeyMarker())
+	}
+	return &errorspb.StringsPayload{Details: d}
 }
 
-func fromPayload(role string, p proto.Message) (msg, code string, ok bool) {
+func fromPayload(role string, p proto.Message) (msg, code, mark string, ok bool) {
 	sp, isSP := p.(*errorspb.StringsPayload)
-	if !isSP || sp == nil || len(sp.Details) != 3 || sp.Details[0] != role {
-		return "", "", false
+	if !isSP || sp == nil || len(sp.Details) < 3 || len(sp.Details) > 4 || sp.Details[0] != role {
+		return "", "", "", false
 	}
-	return sp.Details[1], sp.Details[2], true
+	if len(sp.Details) == 4 {
+		mark = sp.Details[3]
+	}
+	return sp.Details[1], sp.Details[2], mark, true
 }
 
 // registerCodecs registers the decoders (and, with encoders on, the
@@ -339,14 +376,32 @@ func fromPayload(role string, p proto.Message) (msg, code string, ok bool) {
 // A proto-native leaf type gets neither: it is its own payload.
 func registerCodecs(v *version, enc bool) {
 	lk, wk := errors.GetTypeKey(v.leafProto), errors.GetTypeKey(v.wrapProto)
+	// marker lineage: the marker of an instance travels in the safe details
+	// (default encoding: the types implement SafeDetails) or in the payload
+	// (custom encoders); the decoders rebuild the instance with it.
+	bySafe := func(sd []string) *version {
+		if v.marked == nil {
+			return v
+		}
+		if len(sd) == 0 {
+			return v.marked("")
+		}
+		return v.marked(sd[0])
+	}
+	byMark := func(mark string) *version {
+		if v.marked == nil {
+			return v
+		}
+		return v.marked(mark)
+	}
 	if !enc {
 		if !v.protoNative {
-			errors.RegisterLeafDecoder(lk, func(_ context.Context, msg string, _ []string, _ proto.Message) error {
-				return v.newLeaf(msg, "")
+			errors.RegisterLeafDecoder(lk, func(_ context.Context, msg string, sd []string, _ proto.Message) error {
+				return bySafe(sd).newLeaf(msg, "")
 			})
 		}
-		errors.RegisterWrapperDecoder(wk, func(_ context.Context, cause error, prefix string, _ []string, _ proto.Message) error {
-			return v.newWrap(prefix, "", cause)
+		errors.RegisterWrapperDecoder(wk, func(_ context.Context, cause error, prefix string, sd []string, _ proto.Message) error {
+			return bySafe(sd).newWrap(prefix, "", cause)
 		})
 		if v.multiProto != nil {
 			errors.RegisterMultiCauseDecoder(errors.GetTypeKey(v.multiProto), func(_ context.Context, causes []error, msg string, _ []string, _ proto.Message) error {
@@ -360,8 +415,8 @@ func registerCodecs(v *version, enc bool) {
 			return err.Error(), nil, payloadFor("leaf", err)
 		})
 		errors.RegisterLeafDecoder(lk, func(_ context.Context, _ string, _ []string, p proto.Message) error {
-			if m, c, ok := fromPayload("leaf", p); ok {
-				return v.newLeaf(m, c)
+			if m, c, k, ok := fromPayload("leaf", p); ok {
+				return byMark(k).newLeaf(m, c)
 			}
 			return nil
 		})
@@ -371,8 +426,8 @@ func registerCodecs(v *version, enc bool) {
 		return m, nil, payloadFor("wrap", err)
 	})
 	errors.RegisterWrapperDecoder(wk, func(_ context.Context, cause error, _ string, _ []string, p proto.Message) error {
-		if m, c, ok := fromPayload("wrap", p); ok {
-			return v.newWrap(m, c, cause)
+		if m, c, k, ok := fromPayload("wrap", p); ok {
+			return byMark(k).newWrap(m, c, cause)
 		}
 		return nil
 	})
@@ -382,7 +437,7 @@ func registerCodecs(v *version, enc bool) {
 			return err.Error(), nil, payloadFor("multi", err)
 		})
 		errors.RegisterMultiCauseDecoder(mk, func(_ context.Context, causes []error, _ string, _ []string, p proto.Message) error {
-			if m, c, ok := fromPayload("multi", p); ok {
+			if m, c, _, ok := fromPayload("multi", p); ok {
 				return v.newMulti(m, c, causes)
 			}
 			return nil
@@ -406,7 +461,9 @@ func (p Proc) register(o opts) {
 			observe(ev.observe)
 		}
 	}
-	registerCodecs(p.cur(o.lin), o.Enc)
+	if !p.NoDec {
+		registerCodecs(p.cur(o.lin), o.Enc)
+	}
 	registerCodecs(chainU[1], o.Enc)
 }
 
@@ -505,6 +562,16 @@ func observingProcs(l *lineage) []Proc {
 	var out []Proc
 	for _, p := range knowingProcs(l) {
 		out = append(out, withObservations(p)[1:]...)
+	}
+	return out
+}
+
+// withoutDecoders returns the processes with NoDec set.
+func withoutDecoders(ps []Proc) []Proc {
+	var out []Proc
+	for _, p := range ps {
+		p.NoDec = true
+		out = append(out, p)
 	}
 	return out
 }
